@@ -279,12 +279,19 @@ func (f *Farm) Make(kind string) (txgen.Tx, error) {
 		}
 		return txgen.Tx{}, fmt.Errorf("no witness")
 	case "OLVM":
-		nonce := w.OlvmNext[f.E.Name]
-		to := ethcmn.BytesToAddress(B.Addr)
-		tx := txgen.OLVM(f.E, txgen.OLVMArgs{ChainID: p.ChainID, Nonce: nonce, To: &to, Value: big.NewInt(12345 + k),
-			Fee: txgen.Fee{Price: big.NewInt(1000000000), Cur: "OLT", Gas: 100000}})
-		tx.Note = fmt.Sprintf("olvm:%s:%d", f.E.Name, nonce)
-		return tx, nil
+		return f.MakeOLVM(0, 12345+k), nil
 	}
 	return txgen.Tx{}, fmt.Errorf("unknown kind %s", kind)
+}
+
+// MakeOLVM builds an OLVM transfer from the farm's ethereum key to B whose nonce is the
+// account's next nonce plus gap.
+func (f *Farm) MakeOLVM(gap uint64, value int64) txgen.Tx {
+	w := f.W
+	nonce := w.OlvmNext[f.E.Name] + gap
+	to := ethcmn.BytesToAddress(f.B.Addr)
+	tx := txgen.OLVM(f.E, txgen.OLVMArgs{ChainID: w.P.ChainID, Nonce: nonce, To: &to, Value: big.NewInt(value),
+		Fee: txgen.Fee{Price: big.NewInt(1000000000), Cur: "OLT", Gas: 100000}})
+	tx.Note = fmt.Sprintf("olvm:%s:%d", f.E.Name, nonce)
+	return tx
 }
